@@ -98,6 +98,10 @@ var catalogue = []catLine{
 	{`plain text hello, not json`, `level=info v=9 msg=ok`},
 	{`[1,2,3]`, `level=warn v=11 msg=ok2`},
 	{`{"level":"info","v":9`, `level=info v=12 msg=ok3`},
+	// negative and zero values: sums and averages of a bucket may be negative or zero
+	{`{"level":"error","v":-20,"msg":"neg","n":{"a":"y"}}`, `level=error v=-20 msg=neg n_a=y`},
+	{`{"level":"info","v":-3.5,"msg":"neg2"}`, `level=info v=-3.5 msg=neg2`},
+	{`{"level":"warn","v":0,"msg":"zero"}`, `level=warn v=0 msg=zero`},
 }
 
 func (s Stage) render() string {
